@@ -459,6 +459,10 @@ func (x *Exec) applyContract(fr *Frame, st *State, c *Contract, sig *types.Signa
 		x.note("assumed contract of an interface method (foreign implementations are not verified)", calleeShort(c.Key))
 	case c.Assumed != "":
 		x.note("assumed contract ("+c.Assumed+")", calleeShort(c.Key))
+	default:
+		if x.used != nil {
+			x.used[c.Key] = true
+		}
 	}
 	env := x.contractEnv(st, c, sig, all)
 	ord := 0
